@@ -34,6 +34,7 @@ def plan(tier, seed):
         specs += [{"kind": "api", "of": kind, "pool": 60 if tier == "quick" else 110}
                   for _ in range(1 if tier == "quick" else 4)]
     specs += [{"kind": "programs", "n": 1500 if tier == "quick" else 15000} for _ in range(n // 2)]
+    specs += [{"kind": "suite"}]
     specs += [{"kind": "sorting", "n": 700 if tier == "quick" else 8000} for _ in range(n // 2)]
     return specs
 
@@ -350,6 +351,9 @@ def run_sorting(spec, ctx):
 
 
 def run_shard(spec, ctx):
+    if spec["kind"] == "suite":
+        from cklmon import suite
+        return suite.run_suite(ctx, "C07", "M2")
     valuelaws.MONITOR.install()
     if spec["kind"] == "api":
         run_api(spec, ctx)
@@ -367,4 +371,6 @@ def finalize(merged, tier):
               "set_enumerations", "map_key_enumerations"):
         if c.get(k, 0) == 0:
             reasons.append("monitor counter %s is zero" % k)
+    if merged["counters"].get("suite_tests", 0) == 0 or merged["counters"].get("suite_report_missing", 0):
+        reasons.append("M9: the repository suite under monitors produced no observations")
     return {}, reasons
